@@ -4,6 +4,11 @@ import json, sys
 pid = sys.argv[1]; tag = sys.argv[2] if len(sys.argv) > 2 else "a"
 p = next(json.loads(l) for l in open('/verif/properties.jsonl') if json.loads(l)['id'] == pid)
 wt = "/tmp/brk_%s%s" % (pid, tag)
+import glob, os
+avoid = []
+for m in sorted(glob.glob('/verif/seeded/%s_*/meta.json' % pid)):
+    mm = json.load(open(m)); avoid.append("- %s: %s" % (mm["name"].split("_", 1)[1].replace("_", " "), mm["needs_to_manifest"]))
+AVOID = ("\n\nIdeas that were already used by others for this property - do NOT repeat them or close variants (in particular no more 'exact comparison replaced by np.isclose / a tolerance' changes); look for different mechanisms, preferably ones that need a multi-step sequence of calls on the same object, state that survives between calls, or two cooperating code sites:\n" + "\n".join(avoid)) if (avoid and tag != "a") else ""
 print(f"""You are testing how robust a verification effort is. Work ONLY inside your own scratch git worktree of the Python library pyLife (boschresearch/pylife); create it with
 
     git -C /repo worktree add --detach {wt} HEAD
@@ -18,7 +23,7 @@ The library is supposed to satisfy this semantic property:
   quantifier: {p['quantifier']['text']}
   code anchors (where the behaviour lives): {json.dumps(p['anchors'].get('files'))}; mechanisms: {json.dumps([m['name'] + ' @ ' + m['where'] for m in p['anchors'].get('mechanism', [])])}
 
-Task: produce TWO different, independent, realistic source changes to pyLife (each a small patch such as a plausible regression or a well-meant refactoring/optimisation gone wrong; library code only, not tests) that each BREAK this property while the code still imports/compiles and the repository's existing test-suite still passes. Prefer changes that need something specific to manifest — a particular multi-step sequence of calls, an unusual but valid input (ties, plateaus, empty classes, id gaps, particular index layouts, boundary values), a particular interleaving of chunk borders, or two cooperating sites that each look fine alone — NOT changes that ordinary use would expose at once. The two changes should attack different mechanisms of the property.
+Task: produce TWO different, independent, realistic source changes to pyLife (each a small patch such as a plausible regression or a well-meant refactoring/optimisation gone wrong; library code only, not tests) that each BREAK this property while the code still imports/compiles and the repository's existing test-suite still passes. Prefer changes that need something specific to manifest — a particular multi-step sequence of calls, an unusual but valid input (ties, plateaus, empty classes, id gaps, particular index layouts, boundary values), a particular interleaving of chunk borders, or two cooperating sites that each look fine alone — NOT changes that ordinary use would expose at once. The two changes should attack different mechanisms of the property.{AVOID}
 
 For each change i in {{1,2}}:
   1. Make the edit in {wt}, save it as {wt}/out/change{{i}}.diff (`git diff > ...`; create the out/ directory; diff relative to the repo root so that `git apply` works).
